@@ -55,17 +55,21 @@ theorem P_inSuper_par {e : Expr} (he : Frag e) (ssp sp : Span) {lvl : Nat} (h : 
 def headOf : Expr → Expr
   | .field e _ _ => headOf e
   | .index e _ _ => headOf e
+  | .call f _ _ _ => headOf f
   | e => e
 
 def sufToks : Expr → Toks
   | .field e n _ => sufToks e ++ [sim .Dot, .ident n.value]
   | .index e i _ => sufToks e ++ sim .LeftBracket :: (P i 0 ++ [sim .RightBracket])
+  | .call f args ts _ =>
+    sufToks f ++ sim .LeftParen :: (prArgs false args ++ sim .RightParen :: (if ts then [sim .Tailstrict] else []))
   | _ => []
 
 theorem P_split {e : Expr} (h : Frag e) : P e suffixPrec = P (headOf e) suffixPrec ++ sufToks e := by
   induction h with
   | field name sp he ih => rw [P_field he, ih]; simp [headOf, sufToks]
   | index sp he hi ihe ihi => rw [P_index he, ihe]; simp [headOf, sufToks]
+  | call args ts sp hf ha ihf iha => rw [P_call hf, ihf]; simp [headOf, sufToks]
   | _ => simp [headOf, sufToks]
 
 end Rsj.Parser
